@@ -71,6 +71,7 @@ var progTargets = []pgTarget{
 	{"text", "Reader", "ReadRegexp"}, {"text", "Reader", "Readf"},
 	{"parsley", "", "NewFileSet"}, {"text", "Position", "String"},
 	{"text/terminal", "", "unquoteString"},
+	{"text", "", "NewFile"},
 	// asked for, outside the subset (listed in untranslatedProg with the reason): calls methods of the opaque interfaces
 	// parsley.Error and parsley.Position
 	{"parsley", "FileSet", "ErrorWithPosition"},
@@ -101,6 +102,7 @@ type pgGen struct {
 	problem    []string
 	impl       map[*types.TypeName]*types.Named       // interface -> the struct type its method calls are dispatched to
 	normalised map[*ast.BlockStmt]map[*types.Var]bool // gonorm.go: the bodies already normalised, with their per-round variables
+	textVars   map[*types.Var]bool                    // progtext.go pgTextVars: string variables that hold text (Lean `String`)
 }
 
 // ---- the little target language ----
@@ -1001,6 +1003,10 @@ func (c *pgCtx) call(x *ast.CallExpr) (pre []string, code string, mon bool) {
 			pgFail("call of the variadic %s", fn.key)
 		}
 		for i, a := range x.Args {
+			if c.isText(sig.Params().At(i)) { // the callee only stores this string: text
+				as = append(as, c.strVal(a, true, &pre))
+				continue
+			}
 			as = append(as, c.arg(a, sig.Params().At(i).Type(), &pre))
 		}
 		return pre, strings.TrimSpace(fn.key + " " + strings.Join(as, " ")), true
@@ -1209,7 +1215,7 @@ func (c *pgCtx) assignPath(lhs ast.Expr, v string) string {
 		if !ok {
 			pgFail("assignment to %s, which is not a local variable", x.Name)
 		}
-		return "let " + c.name(lv) + " : " + c.typ(lv.Type()) + " := " + v
+		return "let " + c.name(lv) + " : " + c.varTyp(lv) + " := " + v
 	case *ast.SelectorExpr:
 		sel, ok := c.info.Selections[x]
 		if !ok || sel.Kind() != types.FieldVal || len(sel.Index()) != 1 {
@@ -1242,6 +1248,13 @@ func (c *pgCtx) assign(lhs ast.Expr, rhs ast.Expr, op token.Token, k pgNode) pgN
 	var pre []string
 	if t := c.info.TypeOf(lhs); t != nil && pgIsString(t) && op == token.ILLEGAL { // text into a field, bytes into a variable
 		_, isField := lhs.(*ast.SelectorExpr)
+		if id, ok := pgUnparen(lhs).(*ast.Ident); ok {
+			o := c.info.Defs[id]
+			if o == nil {
+				o = c.info.Uses[id]
+			}
+			isField = c.isText(o) // a text variable takes text, like a field
+		}
 		v := c.strVal(rhs, isField, &pre)
 		return c.lets(append(pre, c.assignPath(lhs, v)), k)
 	}
@@ -1362,6 +1375,19 @@ func (c *pgCtx) stmt(s ast.Stmt, k pgNode) pgNode {
 			if c.resT != nil && i < c.resT.Len() {
 				want = c.resT.At(i).Type()
 			}
+			// `return &v` of a local struct variable: struct pointers are owned values, and nothing runs after the return
+			// that could see the variable again, so the pointer is the variable's value
+			if u, ok := pgUnparen(r).(*ast.UnaryExpr); ok && u.Op == token.AND && c.inLit == nil {
+				if id, ok := pgUnparen(u.X).(*ast.Ident); ok {
+					if v, ok := pgLocal(c.info.Uses[id]); ok {
+						if n, _ := pgStructOf(v.Type()); n != nil {
+							if _, isPtr := v.Type().(*types.Pointer); !isPtr {
+								r = id
+							}
+						}
+					}
+				}
+			}
 			vals = append(vals, c.arg(r, want, &pre))
 		}
 		return c.lets(pre, c.ret(vals))
@@ -1381,6 +1407,9 @@ func (c *pgCtx) stmt(s ast.Stmt, k pgNode) pgNode {
 				if len(vs.Values) == 0 {
 					o := c.info.Defs[id]
 					todo = append(todo, func(k pgNode) pgNode {
+						if c.isText(o) {
+							return &pgLet{"let " + c.name(o) + " : String := \"\"", k}
+						}
 						return &pgLet{"let " + c.name(o) + " : " + c.typ(o.Type()) + " := " + c.zero(o.Type()), k}
 					})
 				} else {
@@ -1444,6 +1473,10 @@ func (c *pgCtx) stmt(s ast.Stmt, k pgNode) pgNode {
 			r := c.atom(id, &pre)
 			as := []string{r}
 			for i, a := range call.Args {
+				if c.isText(fn.obj.Type().(*types.Signature).Params().At(i)) {
+					as = append(as, c.strVal(a, true, &pre))
+					continue
+				}
 				as = append(as, c.arg(a, fn.obj.Type().(*types.Signature).Params().At(i).Type(), &pre))
 			}
 			pat := r
@@ -1632,7 +1665,7 @@ func (c *pgCtx) emitLoop(kind string, region []ast.Node, inside func(token.Pos) 
 		if inside(v.Pos()) || c.loopLocal[v] {
 			continue
 		}
-		pv := pgVar{c.name(v), c.typ(v.Type())}
+		pv := pgVar{c.name(v), c.varTyp(v)}
 		if assigned[v] {
 			state = append(state, pv)
 		} else {
@@ -1856,7 +1889,7 @@ func (g *pgGen) translate(fn *pgFn) {
 	}
 	for i := 0; i < sig.Params().Len(); i++ {
 		p := sig.Params().At(i)
-		params = append(params, "("+c.name(p)+" : "+c.typ(p.Type())+")")
+		params = append(params, "("+c.name(p)+" : "+c.varTyp(p)+")")
 	}
 	for i := 0; i < sig.Results().Len(); i++ {
 		if sig.Results().At(i).Name() != "" {
@@ -1966,6 +1999,12 @@ func writeProgFacts(path string) error {
 		}
 	}
 	g.markExt()
+	g.textVars = map[*types.Var]bool{}
+	for _, fn := range g.fns {
+		for v := range pgTextVars(fn.pkg.info, fn.decl) {
+			g.textVars[v] = true
+		}
+	}
 	for _, fn := range g.fns {
 		g.translate(fn)
 	}
